@@ -32,7 +32,8 @@ LEVEL_NOTE = "mutants are drawn from the generator's machines; reach is the muta
 DESIGN_REF = "DESIGN.md section 6, C18"
 
 ILLEGAL_MARKERS = ("Illegal State Machine", "caused the exception", "Mandatory \"Next\" field is missing")
-HOSTILE_NAMES = ["Type", "End", "States", "Next", "a.b", "x[0]", "it's", "$", "*", "Branches", "StartAt", "Result", "k", "my key", "a..b", "0"]
+HOSTILE_NAMES = ["Type", "End", "States", "Next", "a.b", "x[0]", "it's", "$", "*", "Branches", "StartAt", "Result", "k", "my key", "a..b", "0",
+                 "Parameters", "ItemSelector", "ResultSelector", "Retry", "Catch", "Choices", "Default", "ItemProcessor", "Iterator", "Comment", "InputPath", "ResultPath"]
 
 
 def walk(node, path=()):
@@ -73,7 +74,7 @@ def base_machine(rng):
 def mutate(asl, r):
     m = copy.deepcopy(asl)
     nodes = [(p, n) for p, n in walk(m) if p]
-    kind = r.choice(["drop", "retype", "rename", "retarget", "dupstate", "wrongjson", "hostile-name", "payload-key-name", "nonobject-state", "empty", "empty-array", "dup-sibling", "wrong-typed-field"])
+    kind = r.choice(["drop", "retype", "rename", "retarget", "dupstate", "wrongjson", "hostile-name", "payload-key-name", "nonobject-state", "empty", "empty-array", "dup-sibling", "wrong-typed-field", "field-named-state-made-illegal"])
     p, n = r.choice(nodes)
     parent = get(m, p[:-1]); key = p[-1]
     if kind == "drop":
@@ -115,6 +116,25 @@ def mutate(asl, r):
         sts = [(pp, nn) for pp, nn in walk(m) if pp and pp[-1] == "States" and isinstance(nn, dict) and nn]
         pp, states = r.choice(sts)
         states[r.choice(list(states))] = r.choice(["Bogus", 5, None, [], True])
+    elif kind == "field-named-state-made-illegal":
+        # a state that bears the name of a States-Language field AND is illegal in itself (dangling Next, missing Type, unknown Type): the
+        # validator must look at it like at any other state
+        sts = [(pp, nn) for pp, nn in walk(m) if pp and pp[-1] == "States" and isinstance(nn, dict) and nn]
+        pp, states = r.choice(sts)
+        with_next = [n for n, x in states.items() if isinstance(x, dict) and "Next" in x]
+        old_name = r.choice(with_next or list(states)); new_name = r.choice(["Result", "Parameters", "ItemSelector", "ResultSelector", "Retry", "Catch", "Choices", "Comment"])
+        rename_state(m, pp, old_name, new_name)
+        st = get(m, pp).get(new_name)
+        if isinstance(st, dict):
+            how = r.choice(["dangling-next", "dangling-next", "no-type", "bad-type"])
+            if how == "dangling-next" and "Next" in st:
+                st["Next"] = "Nowhere"          # (the machine keeps its terminal state elsewhere: only this transition is wrong)
+            elif how == "dangling-next":
+                st.pop("End", None); st["Next"] = "Nowhere"
+            elif how == "no-type":
+                st.pop("Type", None)
+            else:
+                st["Type"] = "Nope"
     elif kind == "dup-sibling":
         # the first state of one branch gets the name of a state of a sibling branch (or of another fan-out's body)
         bodies = [(pp, nn) for pp, nn in walk(m) if pp and isinstance(nn, dict) and isinstance(nn.get("States"), dict) and nn["States"] and "StartAt" in nn]
@@ -213,7 +233,11 @@ def classify_accepted(m, kind, res):
     if unvalidated_nodes(m):
         return "statelint-skips-empty-or-nonobject-nodes"
     names = [k for pp, nn in walk(m) if pp and pp[-1] == "States" and isinstance(nn, dict) for k in nn]
-    if any(n in HOSTILE_NAMES or n == "payloadkey" for n in names):
+    hostile = [n for n in names if n in HOSTILE_NAMES or n == "payloadkey"]
+    cause = str((res or {}).get("cause") or "")
+    if hostile and (res is None or not cause or any(('"%s"' % n) in cause for n in hostile)):
+        # (the listed finding is the engine's name lookup going wrong FOR THAT NAME; a machine that merely contains such a name and fails
+        # for the sake of another state is something else)
         return "state-name-collides-with-jsonpath-lookup"
     if res and res.get("status") == "NONE" and handled_fanout_failure_with_siblings(m, res.get("history") or []):
         return "fanout-failure-handled-siblings-live"
@@ -424,6 +448,19 @@ def run(ctx):
         p = validate(ctx, sl, x)
         if p == []:
             run_accepted(ctx, x, "arbitrary")
+    # states that bear the name of a States-Language field and are illegal in themselves, in machines that are otherwise fine
+    for k, nm in enumerate(["Result", "Parameters", "ItemSelector", "ResultSelector", "Retry", "Catch", "Choices", "Branches", "Iterator", "ItemProcessor", "Comment", "InputPath"]):
+        for how in ("dangling-next", "no-type", "bad-type", "dangling-default"):
+            i += 1
+            if not ctx.mine(i):
+                continue
+            bad = {"Type": "Pass", "Next": "Nowhere"} if how == "dangling-next" else {"Next": "Z"} if how == "no-type" else {"Type": "Nope", "Next": "Z"} if how == "bad-type" else \
+                {"Type": "Choice", "Choices": [{"Variable": "$.nope", "IsPresent": True, "Next": "Z"}], "Default": "Nowhere"}
+            m = {"StartAt": "A", "States": {"A": {"Type": "Choice", "Choices": [{"Variable": "$.v", "IsPresent": True, "Next": nm}], "Default": "Z"}, nm: bad, "Z": {"Type": "Succeed"}}}
+            ctx.evaluation(); ctx.count("field_named_states")
+            p = validate(ctx, sl, m)
+            if p == []:
+                run_accepted(ctx, m, "field-named-state:" + how)
     # poison beside a healthy execution
     poisons = [("definition", {"StartAt": "A", "States": {"A": "Bogus"}}), ("definition", {"StartAt": "A", "States": {"A": {"Type": "Nope", "End": True}}}),
                ("definition", {"StartAt": "Missing", "States": {"A": {"Type": "Pass", "End": True}}}), ("definition", {"StartAt": "A", "States": {"A": {"Type": "Pass"}}}),
@@ -450,6 +487,21 @@ def run(ctx):
     tk = lambda **kw: {"StartAt": "A", "States": {"A": dict({"Type": "Task", "Resource": "arn:aws:rpcmessage:local::function:echo", "End": True}, **kw)}}
     for bad in (None, 5, [1], {"a": 1}, True):
         poisons.append(("definition", tk(Resource=bad)))
+    # dangling StartAt / Next inside the bodies of fan-outs, at every position (the failure reaches the join before any result does)
+    okb = {"StartAt": "B", "States": {"B": {"Type": "Pass", "End": True}}}
+    ghost = {"StartAt": "Ghost", "States": {"G1": {"Type": "Pass", "End": True}}}
+    dangl = {"StartAt": "D1", "States": {"D1": {"Type": "Pass", "Next": "Ghost"}}}
+    late = {"StartAt": "L1", "States": {"L1": {"Type": "Task", "Resource": "arn:aws:rpcmessage:local::function:echo", "Next": "Ghost"}}}
+    for bad in (ghost, dangl, late):
+        for branches in ([bad, okb], [okb, bad], [bad], [bad, bad]):
+            poisons.append(("definition", {"StartAt": "P", "States": {"P": {"Type": "Parallel", "Branches": copy.deepcopy(branches), "End": True}}}))
+        for mc in (None, 1):
+            mp = {"Type": "Map", "ItemsPath": "$.items", "ItemProcessor": copy.deepcopy(bad), "End": True}
+            if mc:
+                mp["MaxConcurrency"] = mc
+            poisons.append(("definition", {"StartAt": "M", "States": {"M": mp}}))
+        poisons.append(("definition", {"StartAt": "O", "States": {"O": {"Type": "Parallel", "End": True, "Branches": [
+            {"StartAt": "I", "States": {"I": {"Type": "Map", "ItemsPath": "$.items", "ItemProcessor": copy.deepcopy(bad), "End": True}}}, okb]}}}))
     for fld, vals in (("TimeoutSeconds", ["x", None, [1], -1]), ("HeartbeatSeconds", ["x", {}]), ("Retry", [5, "x", {"a": 1}, [5], [None]]), ("Catch", [5, "x", [5], [{"Next": 5}]]),
                       ("Parameters", [5, "x", [1]]), ("InputPath", [5, [1], {}]), ("ResultPath", [5, [1], {}]), ("OutputPath", [5, {}]), ("ResultSelector", [5, "x"]),
                       ("Next", [5, None, [1], {}])):
